@@ -362,9 +362,25 @@ func generateNoOwnErrorsRule(p *Prog, r *Report, id string) {
 		return
 	}
 	n := 0
-	for _, rf := range p.Region("generator.Generate") {
-		if rf.Obj.Type().(*types.Signature).Recv() != nil || rf.Name() == "generator.setupGenerator" || rf.Name() == "generator.validateMethods" {
-			continue // methods of generator / fileManager: the builders' and the file manager's own diagnostics
+	// Generate and the receiver-less private functions it calls directly or through other such functions — not what
+	// is reached through methods of generator / fileManager (the builders' and the file manager's own diagnostics)
+	plain := map[*FuncInfo]bool{fi: true}
+	for changed := true; changed; {
+		changed = false
+		for _, cs := range p.Calls() {
+			f, ok := cs.Callee.(*types.Func)
+			if !ok || cs.Encl == nil || !plain[cs.Encl] || f.Exported() || f.Type().(*types.Signature).Recv() != nil || objPkgPath(f) != modPath+"/generator" {
+				continue
+			}
+			if h := p.Func(funcKey(f)); h != nil && !plain[h] && h.Name() != "generator.setupGenerator" && h.Name() != "generator.validateMethods" {
+				plain[h] = true
+				changed = true
+			}
+		}
+	}
+	for _, rf := range p.Funcs {
+		if !plain[rf] {
+			continue
 		}
 		info := rf.Pkg.TypesInfo
 		ast.Inspect(rf.Decl, func(nd ast.Node) bool {
@@ -421,6 +437,12 @@ func structIdentityRule(p *Prog, r *Report, id string) {
 			}
 		}
 		site := fmt.Sprintf("builder.(*Struct).Build/identity return#%d", n)
+		if !(need["source"] && need["target"]) {
+			// the condition may be a private predicate: evaluate with either type named
+			if structIdentityUnreachable(sf, "source.Named") && structIdentityUnreachable(sf, "target.Named") {
+				need["source"], need["target"] = true, true
+			}
+		}
 		if need["source"] && need["target"] {
 			r.OK(site, p.PosStr(ret.Pos()), "only for two unnamed struct types")
 		} else {
@@ -515,4 +537,43 @@ func localConfigAllFunctionsSSA(p *Prog) string {
 		return "store into the per-name settings table not found"
 	}
 	return why
+}
+
+// structIdentityUnreachable evaluates builder.(*Struct).Build with one condition of its empty-struct shortcut violated
+// (which: "source.Named", "target.Named", "source.fields", "target.fields") and reports whether the return of the
+// unmodified sourceID is then unreachable.  Private predicate helpers are walked into.
+func structIdentityUnreachable(sf *ssa.Function, which string) bool {
+	var src *ssa.Parameter
+	for _, prm := range sf.Params {
+		if pt, ok := prm.Type().(*types.Pointer); ok && isNamed(pt.Elem(), modPath+"/xtype", "JenID") {
+			src = prm
+		}
+	}
+	if src == nil {
+		return false
+	}
+	n := 0
+	sc := &absScenario{
+		assume: func(v ssa.Value, _ func(ssa.Value) absVal) (absVal, bool) {
+			if role, path := roleFieldPath(v); path == "Named" && role+".Named" == which {
+				n++
+				return aBool(true), true
+			}
+			if b, ok := v.(*ssa.BinOp); ok && (b.Op == token.EQL || b.Op == token.NEQ) {
+				if c, ok := b.X.(*ssa.Call); ok && ssaCalleeObj(c) != nil && isFunc(ssaCalleeObj(c), "go/types", "Struct", "NumFields") && len(c.Call.Args) == 1 {
+					if k, ok := b.Y.(*ssa.Const); ok && k.Value != nil && k.Int64() == 0 {
+						if role, path := roleFieldPath(c.Call.Args[0]); path == "StructType" && role+".fields" == which {
+							n++
+							return aBool(b.Op == token.NEQ), true // the struct has fields
+						}
+					}
+				}
+			}
+			return aUnknown, false
+		},
+	}
+	got := absReach(sf, sc, func(ret *ssa.Return, _ func(ssa.Value) absVal) bool {
+		return len(ret.Results) == 3 && ret.Results[1] == ssa.Value(src)
+	})
+	return got == nil && n > 0
 }
